@@ -277,6 +277,7 @@ func runC14(c *kit.Ctx) {
 	// ---- R5 ---------------------------------------------------------------
 	c.StartRule("R5", "the renewer is cancelled before every fetch and on close", 2)
 	renewerStopsOnError(c)
+	scanRequestLevelOptions(c)
 	cancelCall := func(in ssa.Instruction) bool {
 		call, ok := in.(*ssa.Call)
 		return ok && !call.Call.IsInvoke() && isLoadOfField(call.Call.Value, renewF)
